@@ -92,6 +92,31 @@ theorem C03_perm_distinct (a c : List Op) (ws1 ws2 : List KV) (hp : ws1.Perm ws2
   intro q
   rw [finalOf_append, finalOf_append, finalOf_append, finalOf_append, finalFrom_puts_perm hp hnd]
 
+/-- the history applied through `OverlayDB.Put/Delete/Reset` over ANY backing store leaves exactly `run ops` as write
+set and never touches the store: what the store holds (in particular whether a written value equals the persisted one)
+has no influence on the write set -/
+theorem C03_overlay_writeset (st : Store) (ops : List Op) :
+    (Overlay.runOps ⟨[], st⟩ ops).mem = run ops ∧ (Overlay.runOps ⟨[], st⟩ ops).store = st := by
+  have h : ∀ (o : Overlay), (Overlay.runOps o ops).mem = ops.foldl MemDB.step o.mem ∧ (Overlay.runOps o ops).store = o.store := by
+    induction ops with
+    | nil => intro o; exact ⟨rfl, rfl⟩
+    | cons x r ih =>
+      intro o
+      have e : Overlay.runOps o (x :: r) = Overlay.runOps (o.step x) r := rfl
+      rw [e, List.foldl_cons]
+      obtain ⟨i1, i2⟩ := ih (o.step x)
+      cases x <;> exact ⟨i1, i2⟩
+  exact h ⟨[], st⟩
+
+/-- … so two histories with the same final content of touched keys give the same write set and change hash over any
+two stores (a write of the value that is already visible is a touch: `finalOf` records it) -/
+theorem C03_overlay_final_content {α : Type} (H : Bytes → α) (st1 st2 : Store) (a b : List Op)
+    (h : ∀ k, finalOf a k = finalOf b k) :
+    (Overlay.runOps ⟨[], st1⟩ a).mem = (Overlay.runOps ⟨[], st2⟩ b).mem ∧
+    changeHash H (Overlay.runOps ⟨[], st1⟩ a).mem = changeHash H (Overlay.runOps ⟨[], st2⟩ b).mem := by
+  rw [(C03_overlay_writeset st1 a).1, (C03_overlay_writeset st2 b).1, C03_final_content a b h]
+  exact ⟨rfl, rfl⟩
+
 /-! ### Non-vacuity and concrete instances -/
 example : run [.put [1] [7], .put [0, 255] [8], .del [1], .put [] [9], .put [1] [5]]
     = [([], [9]), ([0, 255], [8]), ([1], [5])] := by decide
@@ -106,6 +131,8 @@ example : ∀ k, finalOf [.put [1] [5], .del [2]] k = finalOf [.del [2], .put [1
     · simp [finalOf, finalFrom, h1, h2]
 example : run ([.put [9] [1]] ++ putOps [([1], [5]), ([2], []), ([], [7])] ++ [.del [9]])
     = run ([.put [9] [1]] ++ putOps [([], [7]), ([1], [5]), ([2], [])] ++ [.del [9]]) := by decide
+/-- a write of the persisted value is recorded -/
+example : (Overlay.runOps ⟨[], [([5], [100])]⟩ [.put [5] [100]]).mem = [([5], [100])] := by decide
 /-- a tombstone is content: deleting an untouched key is *not* the same as not touching it -/
 example : run [.del [3]] ≠ run [] := by decide
 
